@@ -13,7 +13,7 @@ TRUSTED = BASE_TRUST + [
 ASSUMPTIONS = ["the text is valid UTF-8 (invariant of str; the harness cannot even construct another SourceView)",
                "64-bit target: `col as usize + span as usize` and the running UTF-16 index cannot overflow",
                "line_count / lines(): fewer than 2^32 lines (a text of >= 4 GiB; beyond that line_count saturates at 2^32 and Lines::next overflows its u32 counter) - hypothesis visible in c15_line_count / c15_lines_iter",
-               "a column strictly inside a surrogate pair is outside the property (wf=2): the code starts after the pair, the specification includes the pair (c15_slice_midpair)"]
+               "a slice column strictly inside a surrogate pair: the specification includes the cut pair, the code starts after it (c15_slice_midpair, c15_midpair_witness) - open known finding F22, filed by failure class"]
 RULE = ("sv.seq: one SourceView per case, requests in order. Texts: all strings over {a, e-acute, U+1F44C, \\n, \\r} up to length 4 (quick) / 7 (thorough; length 8 with one sequence each), each with request sequences chosen from: every line in order, reversed, late line first, missing line before a present one, "
         "count/lines() before and after, repeated requests, u32::MAX index, all permutations of the indices 0..n for n<=3, random mixes of g/c/a/s; plus for every text up to length 4/7 ALL (line, col, span) triples with line <= n, col,span <= units+2 and the u32::MAX corners, "
         "split into on-boundary (wf=1) and mid-pair columns (wf=2 and again as sv.corr = model correspondence only); random longer texts (<= 300 chars) over a 26-symbol pool incl. 1/2/3/4-byte boundary code points, NEL, U+2028, \\r\\n runs. "
@@ -234,3 +234,63 @@ def generate(tier, rng, hist):
         out.append("sv.seq %s g0,c,a,s0:0:1" % bs.hex())
         bump(hist, "raw_byte_texts")
     return out
+
+
+def _lines16(text):
+    """pieces of the text (split at CRLF, LF, lone CR) as lists of per-character UTF-16 widths"""
+    out, cur, i = [], [], 0
+    while i < len(text):
+        ch = text[i]
+        if ch == "\r":
+            out.append(cur); cur = []
+            if i + 1 < len(text) and text[i + 1] == "\n":
+                i += 1
+        elif ch == "\n":
+            out.append(cur); cur = []
+        else:
+            cur.append(2 if ord(ch) > 0xFFFF else 1)
+        i += 1
+    out.append(cur)
+    return out
+
+
+def _mid_pair(lines, l, c):
+    if l >= len(lines):
+        return False
+    pos = 0
+    for w in lines[l]:
+        if w == 2 and c == pos + 1:
+            return True
+        pos += w
+    return False
+
+
+def finding_class(r, kind):
+    """F22: get_line_slice with the start column strictly inside a surrogate pair starts AFTER the pair, while the
+    statement's "characters covering code units c..c+n, whole surrogate pairs included" includes it (as the code
+    itself does for a pair cut by the END of the span).  Narrow class: op sv.seq, the property's demand contradicted
+    (kind spec), the implementation doing exactly what the validated model does, and the answers differing from the
+    specification ONLY at slice requests whose column is inside a surrogate pair."""
+    t = r["case"].split(" ")
+    if kind != "spec" or t[0] != "sv.seq" or r["impl"] != r["model"] or not r["impl"].startswith("ok ") or not r["spec"].startswith("ok "):
+        return None
+    try:
+        text = bytes.fromhex("" if t[1] == "-" else t[1]).decode("utf-8")
+    except Exception:
+        return None
+    reqs = t[2].split(",")
+    a, b = r["impl"][3:].split(","), r["spec"][3:].split(",")
+    if len(a) != len(reqs) or len(b) != len(reqs):
+        return None
+    lines = _lines16(text)
+    differ = False
+    for q, x, y in zip(reqs, a, b):
+        if x == y:
+            continue
+        differ = True
+        if not q.startswith("s"):
+            return None
+        l, c, n = (int(v) for v in q[1:].split(":"))
+        if not _mid_pair(lines, l, c) or n == 0:
+            return None
+    return "F22-slice-start-inside-surrogate-pair" if differ else None
